@@ -1,5 +1,6 @@
 """Path context: path condition, decisions, obligations, ghost state."""
 import time
+import os
 import z3
 
 from .values import PathEnd, Sym, mk
@@ -268,17 +269,37 @@ class Ctx(object):
                        self.path_id, info, expect='sat'))
 
 
+class BudgetExceeded(RuntimeError):
+    pass
+
+
+VC_BUDGET_S = float(os.environ.get('PYVC_VC_BUDGET_S', '600'))
+
+
 def explore(run, stats=None, max_paths=20000):
     """replay-based DFS over decisions.  run(ctx) executes one path."""
+    import time
     stats = stats or Stats()
     stack = [[]]
     results = []
     n = 0
+    t0 = time.time()
     while stack:
         prefix = stack.pop()
         n += 1
         if n > max_paths:
-            raise RuntimeError('path budget exceeded (%d)' % max_paths)
+            raise BudgetExceeded('path budget exceeded (%d paths)' % max_paths)
+        if time.time() - t0 > VC_BUDGET_S:
+            import collections
+            h = collections.Counter()
+            for c in results[-200:]:
+                for t in c.trace:
+                    h[t.split('=')[0]] += 1
+            raise BudgetExceeded(
+                'time budget of this VC exceeded (%d paths in %.0f s, %d still '
+                'open; most frequent decisions: %s)' % (
+                    n, VC_BUDGET_S, len(stack),
+                    ', '.join('%s x%d' % kv for kv in h.most_common(8))))
         from .values import unpin_all
         unpin_all()
         ctx = Ctx(prefix, stats, n)
